@@ -581,6 +581,17 @@ class Interp:
             return W.const((v & -v).bit_length() - 1 if v else 64, 32)
         if nt in ("core::num::wrapping_sub", "core::num::wrapping_add"):
             return binop("Sub" if nt.endswith("sub") else "Add", args[0], args[1])
+        if nt == "core::num::rem_euclid":
+            x, m = args
+            if m.cst is None or m.cst == 0 or (m.cst & (m.cst - 1)):
+                raise Unknown("rem_euclid by something other than a power of two")
+            if x.cst is not None:
+                return W.const(x.sval() % m.cst, x.w, x.signed)
+            if x.aff is not None and x.aff[0] % m.cst == 0:
+                return W.const(x.aff[1] % m.cst, x.w, x.signed)
+            if not x.signed:
+                return binop("BitAnd", x, W.const(m.cst - 1, x.w))
+            raise Unknown("rem_euclid of a value without a usable abstract form")
         if nt in ("std::ptr::mut_ptr::is_null", "std::ptr::const_ptr::is_null"):
             return compare("Eq", args[0], W.const(0, args[0].w))
         if nt in ("std::ptr::null_mut", "std::ptr::null"):
